@@ -350,6 +350,7 @@ func (x *Exec) inline(fr *Frame, st *State, fn *ssa.Function, args []Val, binds 
 			nf.vals[fv] = x.freshVal(st, "fv."+fv.Name(), fv.Type())
 		}
 	}
+	x.aliasEnv(fn, nf.params)
 	nf.entry = st.clone()
 	x.execBody(nf, st.clone())
 	m := x.mergeStates(nf.retStates)
@@ -434,6 +435,9 @@ func (x *Exec) bindFormals(ctr *Contract, sig *types.Signature, args []Val, fn *
 		if i < len(names) {
 			env[names[i]] = a
 		}
+	}
+	if fn != nil {
+		x.aliasEnv(fn, env)
 	}
 	return env
 }
@@ -555,6 +559,9 @@ func (x *Exec) applyContract(fr *Frame, st *State, ctr *Contract, sig *types.Sig
 		rs = x.freshResults(st, short, sig)
 		for i, n := range resultNames(ctr, sig) {
 			env[n] = rs[i]
+		}
+		if fn != nil {
+			x.aliasEnv(fn, env) // named results that were renamed since the contract was written
 		}
 	}
 	for _, c := range ctr.Clauses {
@@ -849,7 +856,13 @@ func (x *Exec) staticRegionOfSpec(ctr *Contract, sig *types.Signature, e ast.Exp
 // every call of that callee, evaluated over the caller's named locals with the
 // actual arguments bound to arg0, arg1, ...
 func (x *Exec) siteClauses(fr *Frame, st *State, call *ssa.CallCommon, instr ssa.Instruction, fv Val, args []Val) {
-	if !fr.top || fr.ctr == nil {
+	// the site clauses of the function under verification also cover the calls made by the
+	// helpers that are inlined into it (an extracted helper must not escape them)
+	top := fr
+	for top.parent != nil {
+		top = top.parent
+	}
+	if !top.top || top.ctr == nil {
 		return
 	}
 	var callee string
@@ -865,7 +878,7 @@ func (x *Exec) siteClauses(fr *Frame, st *State, call *ssa.CallCommon, instr ssa
 	} else {
 		callee = shortPkgOfType(call.Value.Type())
 	}
-	for _, c := range fr.ctr.Clauses {
+	for _, c := range top.ctr.Clauses {
 		if c.Kind != "site" {
 			continue
 		}
@@ -873,6 +886,20 @@ func (x *Exec) siteClauses(fr *Frame, st *State, call *ssa.CallCommon, instr ssa
 			continue
 		}
 		env := map[string]Val{}
+		// names of the inlined frames between the top function and this call shadow the top function's
+		var chain []*Frame
+		for f := fr; f != top; f = f.parent {
+			chain = append([]*Frame{f}, chain...)
+		}
+		for _, f := range chain {
+			for k, v := range f.params {
+				env[k] = v
+			}
+			for k, v := range f.locals(x, st) {
+				env[k] = v
+			}
+			x.aliasEnv(f.fn, env)
+		}
 		all := args
 		if call.IsInvoke() {
 			all = append([]Val{fv}, args...)
@@ -880,10 +907,10 @@ func (x *Exec) siteClauses(fr *Frame, st *State, call *ssa.CallCommon, instr ssa
 		for i, a := range all {
 			env[fmt.Sprintf("arg%d", i)] = a
 		}
-		g := x.evalSpecBool(fr, st, fr.entry, c.Expr, env)
+		g := x.evalSpecBool(top, st, top.entry, c.Expr, env)
 		lbl := c.Label
 		if lbl == "" {
-			lbl = fmt.Sprintf("%d", clauseOrdinal(fr.ctr, c))
+			lbl = fmt.Sprintf("%d", clauseOrdinal(top.ctr, c))
 		}
 		name := x.siteName(fmt.Sprintf("%s/site.%s.%s@%s", x.prog.relName(x.topFn), c.Callee, lbl, x.srcText(instr)))
 		x.oblige(st, "site", name, c.Tags, instr.Pos(), g)
